@@ -109,7 +109,7 @@ def shards(tier):
         for op in dfbfs.menu(M, seen):
             if reshape_op(0, op):
                 out.append({"part": "bfs", "init": init, "prefix": [op], "depth": depth - 1})
-    layouts = [0, 1] if tier == "quick" else [0, 1, 2, 3]
+    layouts = [0, 1, 4] if tier == "quick" else [0, 1, 2, 3, 4]
     rows = [0, 1, 3] if tier == "quick" else [0, 1, 2, 3]
     for lay in layouts:
         for r in rows:
@@ -186,6 +186,8 @@ LAYOUTS = [
     [("a", "f8"), ("b", "U"), ("c", "b1"), ("d e", "us")],
     [("a", "b1"), ("b", "str"), ("c", "D"), ("count", "i8")],
     [("a", "obj"), ("b", "f8"), ("c", "str"), ("_x", "u1")],
+    # names contained in one another, the empty name, a name that is also a method's parameter name
+    [("a", "i8"), ("a b", "str"), ("", "f8"), ("rows", "D")],
 ]
 
 
